@@ -235,6 +235,53 @@ def cropped_row_slices(rep, prog, rule):
             rep.bad(rule, key + "|rows", f.loc, "rows start at %s and are limited by %s; expected "
                     "top + start_row and height - start_row" % (fmt(start), fmt(cnt)))
     rep.floor(rule, "cropped row iterators", m, 3)
+    # any other row iterator a cropped view overrides
+    def float_offset(e):
+        """a floating-point value that has one of the view's integer offsets mixed in"""
+        def has_off(x):
+            if not isinstance(x, tuple) or not x:
+                return False
+            if x[0] == "field" and x[2] in ("top", "left") and strip_all(x[1])[0] == "param":
+                return True
+            return any(has_off(y) for y in x if isinstance(y, tuple))
+
+        def walk(x):
+            if not isinstance(x, tuple) or not x:
+                return False
+            if x[0] == "cast" and x[1] in ("IntToFloat",) and has_off(x[2]):
+                return True
+            return any(walk(y) for y in x if isinstance(y, tuple))
+        return walk(e)
+    probe = ("bin", "Add", ("cast", "IntToFloat", ("field", ("param", 1, "self"), "top"), "f64"),
+             ("param", 2, "start_y"))
+    if not float_offset(probe) or float_offset(("param", 2, "start_y")):
+        raise CheckError("float-offset matcher self-test failed")
+    for f in sorted(prog.fns.values(), key=lambda x: x.id):
+        meth = f.d.get("method") or ""
+        if not meth.startswith("iter_") or meth in ("iter_rows", "iter_rows_mut"):
+            continue
+        if "TypedCroppedImage" not in f.d.get("self_ty", ""):
+            continue
+        rep.touch(f)
+        sym = Sym(f)
+        key = f.name + "|override"
+        inner = [c for c in f.calls() if (c.method or "").startswith("iter_")]
+        bad = None
+        for c in inner:
+            for a in c.args[1:]:
+                e = sym.operand(a)
+                if float_offset(e):
+                    bad = (c, e)
+        if bad:
+            rep.bad(rule, key + "|float-offset", bad[0].at, "%s passes %s to the wrapped view's "
+                    "%s: the view's integer row offset is added in floating point, so the row "
+                    "positions are accumulated from a different start value and "
+                    "floor(top + y) can differ from top + floor(y) by one row; a cropped view "
+                    "then picks other source rows than an owned copy of the same pixels" % (
+                        f.name, fmt(bad[1])[:80], bad[0].method))
+        else:
+            rep.unk(rule, key, f.loc, "cropped view overrides %s; its row selection is not "
+                    "modelled" % meth)
 
 
 def table_index(rep, prog, rule):
